@@ -441,6 +441,7 @@ impl<'p, C: SimCfg> World<'p, C> {
             };
             let mut node = node;
             node.game.own_snapshots = cfg.own_snapshots;
+            node.game.checksum_layout = cfg.checksum_layout;
             if cfg.own_snapshots && i == 0 {
                 w.probes.extra.insert("runs_with_own_snapshots", 1);
             }
@@ -923,10 +924,10 @@ impl<'p, C: SimCfg> World<'p, C> {
                 }
                 let mine = self.nodes[i].game.checksums.get(frame).cloned().unwrap_or_default();
                 let theirs = self.nodes.get(*addr as usize).map(|n| n.game.checksums.get(frame).cloned().unwrap_or_default()).unwrap_or_default();
-                if !mine.iter().any(|c| *c as u128 == *local) {
+                if !mine.iter().any(|c| *c == *local) {
                     self.violate("c09.desync_checksum", i, *frame, format!("node {i}: DesyncDetected for frame {frame} carries local checksum {local:x}, which this peer never computed for that frame (it saved {mine:x?})"));
                 }
-                if !theirs.iter().any(|c| *c as u128 == *remote) {
+                if !theirs.iter().any(|c| *c == *remote) {
                     self.violate("c09.desync_checksum", i, *frame, format!("node {i}: DesyncDetected for frame {frame} carries remote checksum {remote:x}, which node {addr} never computed for that frame (it saved {theirs:x?})"));
                 }
                 if self.nodes[i].desync_seen.is_none() {
